@@ -358,7 +358,29 @@ def nestuse(r):
     return s
 
 
-GENS = {"uniform": uniform, "nestuse": nestuse, "longrun": longrun, "iopressure": iopressure, "squares": squares, "macro": macro, "pressure": pressure, "affine": affine, "bigconst": bigconst,
+def ifnest(r):
+    """a loop that the optimiser turns into an `if` (its body ends by clearing its own condition)
+    around loops that do I/O, with more I/O after it: budget exhaustion inside the if body must
+    surface as 'not finished' and cut the events there"""
+    s = r.choice([',', ',', '+', '++'])
+    inner = ''
+    for _ in range(r.randint(1, 3)):
+        k = r.below(4)
+        if k == 0:
+            inner += '>' + r.choice([',', '+++', '++++++']) + '[.-]<'
+        elif k == 1:
+            inner += '>>' + r.choice([',', '++++']) + '[-<+.>]<[-]<'
+        elif k == 2:
+            inner += '>.<'
+        else:
+            inner += '>' + r.choice(['+++', ',']) + '[>+<-]>[.-]<<'
+    s += '[' + inner + '[-]]'
+    for _ in range(r.randint(1, 3)):
+        s += r.choice(['++++++++[>++++++++<-]>+.<', '>.<', '+.', ',.', '>+++[.-]<'])
+    return s
+
+
+GENS = {"ifnest": ifnest, "uniform": uniform, "nestuse": nestuse, "longrun": longrun, "iopressure": iopressure, "squares": squares, "macro": macro, "pressure": pressure, "affine": affine, "bigconst": bigconst,
         "roam": roam, "diverge": diverge}
 
 
